@@ -11,16 +11,22 @@ import (
 	"verifharness/wire"
 )
 
-const c10rRule_ = "(d) what handlers RETURN: scripted handlers behind a real RequestServer, every optional interface present/absent (OpenFileWriter, LstatFileLister, RealPathFileLister incl. legacy, ReadlinkFileLister, NameLookupFileLister, PosixRenameFileCmder, StatVFSFileCmder; io.Closer / TransferError on returned objects), allocator on/off, max-tx-packet, start directory: per step one request (raw wire peer with a strict decoder, and the real Client) and the reply must be exactly what the handler was seen to return: DATA = the n bytes of ReadAt (n<len with nil / io.EOF / wrapped EOF / other errors, n=0, reads longer than max-tx-packet), STATUS kind of WriteAt / Filecmd / Close errors, NAME = the ListAt batch, ATTRS of one-slot listers holding 0/1/2 entries, link / real-path text, statvfs numbers; all 64 open-flag words x OpenFileWriter; random multi-handle sessions; non-trivial = a short count, an error, or a read above 32768"
+const c10rRule_ = "(d) what handlers RETURN: scripted handlers behind a real RequestServer, every optional interface present/absent (OpenFileWriter, LstatFileLister, RealPathFileLister incl. legacy, ReadlinkFileLister, NameLookupFileLister, PosixRenameFileCmder, StatVFSFileCmder; io.Closer / TransferError on returned objects), allocator on/off, max-tx-packet, start directory: per step one request (raw wire peer with a strict decoder, and the real Client) and the reply must be exactly what the handler was seen to return: DATA = the n bytes of ReadAt (n<len with nil / io.EOF / wrapped EOF / other errors, n=0, reads longer than max-tx-packet), STATUS kind of WriteAt / Filecmd / Close errors, NAME = the ListAt batch, ATTRS of one-slot listers holding 0/1/2 entries, link / real-path text, statvfs numbers; all 64 open-flag words x OpenFileWriter; error-product: EVERY term of the product (wrappers bare / *os.PathError / *os.LinkError / *os.SyscallError / %w / custom Unwrap / errors.Join / two wrappers) x (io.EOF, io.ErrUnexpectedEOF, os.ErrNotExist, os.ErrPermission, os.ErrExist, os.ErrClosed, ErrSSHFx 1..8, *StatusError 2..8, 13 errno values, errors.New, custom types) returned from EVERY return site (Fileread / Filewrite / OpenFile / Filelist at open; ReadAt, WriteAt, ListAt mid-transfer; Filelist and Lstat per method and their one-slot ListAt with 0/1 entries; Readlink and RealPath listers; StatVFS; PosixRename; Filecmd per method incl. Fsetstat; Close of each object kind), with all optional interfaces and with none, raw and through the Client, expected kind by the ERROR RULE; random multi-handle sessions; non-trivial = a short count, an error, or a read above 32768"
 
 func c10rS(s string) string { return lib10Hex(s) }
 
-var c10rRepErrs = []string{"", "EOF", "W(EOF)", "X", "NX", "P(E13)", "F5", "F1"}
+var c10rRepErrs = []string{"", "EOF", "W(EOF)", "X", "NX", "P(E13)", "F5", "F1", "P(EOF)", "S(F8)"}
 
 // c10rSystematic enumerates the scenario families.
 func c10rSystematic(thorough bool) []c10rScn {
 	var out []c10rScn
-	terms := c10rTerms()
+	// the families below vary the server configuration with the single-wrapper part of the error product in the
+	// quick tier and with all of it in the thorough tier; family R8 takes the whole product to every return site
+	level := 1
+	if thorough {
+		level = 2
+	}
+	terms := c10rTerms(level)
 	add := func(name, via string, cfg c10rCfg, steps []c10rStep) {
 		if via == "client" {
 			var keep []c10rStep
@@ -99,7 +105,7 @@ func c10rSystematic(thorough bool) []c10rScn {
 				for _, l := range lens {
 					for _, n := range []string{"full", "allbut1", "half", "one", "zero"} {
 						for _, e := range c10rRepErrs {
-							if l > 65536 && !thorough && (e == "F5" || e == "P(E13)" || e == "F1") {
+							if l > 65536 && !thorough && (e == "F5" || e == "P(E13)" || e == "F1" || e == "S(F8)") {
 								continue
 							}
 							salt++
@@ -173,9 +179,13 @@ func c10rSystematic(thorough bool) []c10rScn {
 				}
 			}
 		}
-		for _, e := range terms {
-			steps = append(steps, c10rStep{Op: "opendir", Slot: 3, P: c10rS("d2"), HRet: c10rRet{Err: e}})
-			cl = append(cl, c10rStep{Op: "listdir", P: c10rS("d2"), HRet: c10rRet{Err: e}})
+		for i, e := range terms {
+			steps = append(steps, c10rStep{Op: "opendir", Slot: 3, P: c10rS("d2"), HRet: c10rRet{Err: e}},
+				c10rStep{Op: "readdir", Slot: 2, ORet: []c10rRet{{Count: 0, Err: e, Salt: i}}},
+				c10rStep{Op: "readdir", Slot: 2, ORet: []c10rRet{{Count: 2, Err: e, Salt: i, Names: i % 3}}})
+			cl = append(cl, c10rStep{Op: "listdir", P: c10rS("d2"), HRet: c10rRet{Err: e}},
+				c10rStep{Op: "listdir", P: c10rS("d3"), ORet: []c10rRet{{Count: 0, Err: e, Salt: i}}},
+				c10rStep{Op: "listdir", P: c10rS("d3"), ORet: []c10rRet{{Count: 2, Salt: i, Names: 2 * (i % 2)}, {Count: 0, Err: e}}})
 		}
 		steps = append(steps, c10rStep{Op: "read", Slot: 2, Len: 4}, c10rStep{Op: "write", Slot: 2, Len: 4}, c10rStep{Op: "close", Slot: 2, CRet: c10rRet{Err: "X"}}, c10rStep{Op: "readdir", Slot: 2})
 		add("listat-returns", "raw", cfg, steps)
@@ -255,12 +265,88 @@ func c10rSystematic(thorough bool) []c10rScn {
 			both("close-fsetstat", cfg, steps[i:min(i+100, len(steps))])
 		}
 	}
+
+	// R8: the whole product wrapper x inner error, returned from EVERY place a handler or a handler-returned object
+	// can return an error: Fileread / Filewrite / OpenFile, Filelist(List) at open; ReadAt, WriteAt, ListAt on open
+	// handles; Filelist / Lstat and their one-slot ListAt per method (Stat, Lstat, Readlink, Fstat); Readlink and
+	// RealPath listers; StatVFS; PosixRename; Filecmd per method; Close() of every kind of object.
+	// Twice: all optional interfaces present, and none (the fallbacks Lstat->Stat, PosixRename->Rename,
+	// Readlink through Filelist, read-write open through Filewrite).
+	all := c10rTerms(2)
+	for _, cfg := range []c10rCfg{{OpenFW: true, Lstat: true, RealPath: 1, Readlink: true, PosixRename: true, StatVFS: true, Obj: 3}, {Obj: 1}} {
+		list := all
+		head := []c10rStep{
+			{Op: "open", Slot: 1, P: c10rS("p/get"), Pflags: 1}, {Op: "open", Slot: 2, P: c10rS("/p/put"), Pflags: 2 | 8 | 16},
+			{Op: "open", Slot: 3, P: c10rS("p/rw"), Pflags: 3}, {Op: "opendir", Slot: 4, P: c10rS("p/dir")}}
+		const perScn = 3
+		for i := 0; i < len(list); i += perScn {
+			steps := append([]c10rStep(nil), head...)
+			for j := i; j < min(i+perScn, len(list)); j++ {
+				e := list[j]
+				er := c10rRet{Err: e}
+				one := func(cnt int) []c10rRet { return []c10rRet{{Count: cnt, Err: e, Salt: j, Info: j % 4, Names: 1}} }
+				str := c10rS(fmt.Sprintf("../t %d", j))
+				steps = append(steps,
+					// at open
+					c10rStep{Op: "open", Slot: 5, P: c10rS("o/r"), Pflags: 1, HRet: er},
+					c10rStep{Op: "open", Slot: 5, P: c10rS("o/w"), Pflags: 2 | 8, HRet: er},
+					c10rStep{Op: "open", Slot: 5, P: c10rS("o/rw"), Pflags: 3, HRet: er},
+					c10rStep{Op: "open", Slot: 5, P: c10rS("o/a"), Pflags: 1 | 4, HRet: er},
+					c10rStep{Op: "opendir", Slot: 5, P: c10rS("o/d"), HRet: er},
+					// mid-transfer
+					c10rStep{Op: "read", Slot: 1, Off: uint64(j), Len: 9, ORet: []c10rRet{{N: "zero", Err: e}}},
+					c10rStep{Op: "read", Slot: 3, Off: uint64(j) << 20, Len: 11, ORet: []c10rRet{{N: "half", Err: e, Salt: j}}},
+					c10rStep{Op: "write", Slot: 2, Off: uint64(j), Len: 7, Salt: j, ORet: []c10rRet{{N: "zero", Err: e}}},
+					c10rStep{Op: "write", Slot: 3, Off: 3, Len: 5, Salt: j, ORet: []c10rRet{{N: "allbut1", Err: e}}},
+					c10rStep{Op: "readdir", Slot: 4, ORet: []c10rRet{{Count: 0, Err: e}}},
+					c10rStep{Op: "readdir", Slot: 4, ORet: []c10rRet{{Count: 2, Err: e, Salt: j}}},
+					c10rStep{Op: "listdir", P: c10rS("ld"), HRet: er},
+					c10rStep{Op: "listdir", P: c10rS("ld"), ORet: []c10rRet{{Count: 2, Salt: j}, {Count: 0, Err: e}}},
+					// one-slot listers, per method
+					c10rStep{Op: "stat", P: c10rS("s"), HRet: er},
+					c10rStep{Op: "stat", P: c10rS("s"), ORet: one(1)},
+					c10rStep{Op: "stat", P: c10rS("s"), ORet: one(0)},
+					c10rStep{Op: "lstat", P: c10rS("s"), HRet: er},
+					c10rStep{Op: "lstat", P: c10rS("s"), ORet: one(j % 2)},
+					c10rStep{Op: "fstat", Slot: 1 + j%4, HRet: er},
+					c10rStep{Op: "fstat", Slot: 1 + (j+1)%4, ORet: one((j + 1) % 2)},
+					c10rStep{Op: "readlink", P: c10rS("l"), HRet: c10rRet{Err: e, Str: str}, ORet: one(1)},
+					c10rStep{Op: "readlink", P: c10rS("l"), HRet: c10rRet{Str: str}, ORet: one(j % 2)},
+					// the other handler interfaces
+					c10rStep{Op: "realpath", P: c10rS("rp"), HRet: c10rRet{Err: e, Str: str}},
+					c10rStep{Op: "statvfs", P: c10rS("v"), HRet: c10rRet{Err: e, Salt: j}},
+					c10rStep{Op: "posixrename", P: c10rS("a"), P2: c10rS("b"), HRet: er},
+					// Filecmd per method
+					c10rStep{Op: "rename", P: c10rS("a"), P2: c10rS("b"), HRet: er},
+					c10rStep{Op: "link", P: c10rS("a"), P2: c10rS("b"), HRet: er},
+					c10rStep{Op: "symlink", P: c10rS("../t"), P2: c10rS("b"), HRet: er},
+					c10rStep{Op: "mkdir", P: c10rS("a"), HRet: er},
+					c10rStep{Op: "rmdir", P: c10rS("a"), HRet: er},
+					c10rStep{Op: "remove", P: c10rS("a"), HRet: er},
+					c10rStep{Op: "setstat", P: c10rS("a"), AFlags: wire.APerm, Attrs: fmt.Sprintf("%08x", 0o600+j%8), HRet: er},
+					c10rStep{Op: "fsetstat", Slot: 1 + j%4, AFlags: wire.ASize, Attrs: fmt.Sprintf("%016x", 100+j), HRet: er},
+				)
+				// Close() of each kind of object
+				opener := []c10rStep{{Op: "open", Pflags: 1}, {Op: "open", Pflags: 2 | 8}, {Op: "open", Pflags: 3}, {Op: "opendir"}}[j%4]
+				opener.Slot, opener.P = 6, c10rS("c/x")
+				steps = append(steps, opener, c10rStep{Op: "close", Slot: 6, CRet: er})
+			}
+			var rawSteps []c10rStep
+			for _, st := range steps {
+				if st.Op != "listdir" { // Client.ReadDir is a composite of OPENDIR / READDIR / CLOSE
+					rawSteps = append(rawSteps, st)
+				}
+			}
+			add("error-product", "raw", cfg, rawSteps)
+			add("error-product", "client", cfg, steps)
+		}
+	}
 	return out
 }
 
 // c10rRandom: multi-handle sessions with random configuration and returns.
 func c10rRandom(rng *rand.Rand, n int) []c10rScn {
-	terms := c10rTerms()
+	terms := c10rTerms(2)
 	var out []c10rScn
 	pick := func(l []string) string { return l[rng.Intn(len(l))] }
 	term := func() string {
